@@ -479,6 +479,42 @@ func c14StartOnlyOffsets(w *World, r *Report, fatPkgs []string) {
 				case *ssa.Return:
 					// accessor: callers see a tainted value (handled by the Start() source above) — only allowed in accessors
 					fn := x.Parent()
+					if fn.Parent() != nil {
+						// a local closure (a position helper): what it returns is what its call sites in the enclosing
+						// function receive; follow those results instead of judging the return
+						followed := false
+						for _, pf := range withClosures(fn.Parent()) {
+							allInstrs(pf, func(ins ssa.Instruction) {
+								c, ok := ins.(*ssa.Call)
+								if !ok {
+									return
+								}
+								switch cv := c.Call.Value.(type) {
+								case *ssa.MakeClosure:
+									if cv.Fn == ssa.Value(fn) {
+										push(c, it.why)
+										followed = true
+									}
+								case *ssa.Function:
+									if cv == fn {
+										push(c, it.why)
+										followed = true
+									}
+								default:
+									// called through the local variable that holds the closure
+									for _, rt := range w.prov(c.Call.Value, provOpts{}).Roots {
+										if mc, ok := rt.Val.(*ssa.MakeClosure); ok && mc.Fn == ssa.Value(fn) {
+											push(c, it.why)
+											followed = true
+										}
+									}
+								}
+							})
+						}
+						if followed {
+							continue
+						}
+					}
 					if !(fn.Name() == "Start" || strings.HasPrefix(fn.Name(), "start")) {
 						bad = append(bad, fmt.Sprintf("returned from %s at %s", fnName(fn), w.relFile(instrPos(x))))
 					}
